@@ -141,8 +141,6 @@ Definition w_array_radix := (Pcfg 10 true CDown false 80 true true true, OArr 2 
 Definition w_symbol_question := (cfg_flat, OSym [97; 63]).
 (* é (UTF-8 c3 a9): no bars, and the reader rejects bytes above 0x7f outside bars *)
 Definition w_symbol_non_ascii := (Pcfg 10 false CNone false 80 true true true, OSym [195; 169]).
-(* a|b : printed |a|b| *)
-Definition w_symbol_bar := (cfg_flat, OSym [97; 124; 98]).
 (* the symbol named nil is printed nil *)
 Definition w_symbol_nil := (cfg_flat, OSym [110; 105; 108]).
 (* #\( and the character with code 0 *)
@@ -155,13 +153,17 @@ Definition w_keyword_space := (cfg_flat, OSym [58; 97; 32; 98]).
 
 Definition refutation_witnesses : list (pcfg * obj) :=
   [w_string_quote; w_single_float; w_integral_double; w_ratio_radix; w_array_radix; w_symbol_question;
-   w_symbol_non_ascii; w_symbol_bar; w_symbol_nil; w_char_paren; w_char_nul; w_symbol_dot; w_keyword_space].
+   w_symbol_non_ascii; w_symbol_nil; w_char_paren; w_char_nul; w_symbol_dot; w_keyword_space].
 Theorem outside_guard_refuted : forallb (fun w => refuted (fst w) (snd w)) refutation_witnesses = true.
 Proof. vm_compute. reflexivity. Qed.
 (* what the model makes of some of them *)
 (* repaired (C03-4): (|a b| c) keeps its bars under *print-pretty* t *)
 Example pretty_keeps_bars : model_text cfg_pretty (OList [OSym [97; 32; 98]; OSym [99]]) = Some [40; 124; 97; 32; 98; 124; 32; 99; 41].
 Proof. vm_compute. reflexivity. Qed.
+(* repaired (C03-5): a|b is printed |a\|b|, the name with a backslash and a bell |\\\u0007| *)
+Example bar_in_name_escaped : model_text cfg_flat (OSym [97; 124; 98]) = Some [124; 97; 92; 124; 98; 124] /\
+  model_text cfg_flat (OSym [92; 7]) = Some [124; 92; 92; 92; 117; 48; 48; 48; 55; 124].
+Proof. vm_compute. split; reflexivity. Qed.
 Example integral_double_reads_fixnum : model_read (model_text (fst w_integral_double) (snd w_integral_double)) = Some [OInt false 1].
 Proof. vm_compute. reflexivity. Qed.
 Example array_radix_text : model_text (fst w_array_radix) (snd w_array_radix) =
